@@ -35,6 +35,8 @@ pub struct Ctx {
     pub vars: HashMap<String, Uuid>,
     pub rng: Rng,
     pub out: Vec<String>,
+    pub keep_dir: Option<std::path::PathBuf>,
+    pub held: Option<rusqlite::Connection>,
 }
 
 pub fn urg(u: SnapshotUrgency) -> &'static str {
@@ -60,6 +62,8 @@ impl Ctx {
             vars: HashMap::new(),
             rng: Rng(seed),
             out: Vec::new(),
+            keep_dir: std::env::var("TSS_KEEP_DIR").ok().map(std::path::PathBuf::from),
+            held: None,
         };
         c.open(true);
         c
@@ -83,15 +87,63 @@ impl Ctx {
             }
             Backend::Sqlite => {
                 self.store = None;
-                if fresh {
+                if fresh && self.keep_dir.is_none() {
                     self.dir = Some(tempfile::TempDir::new().expect("tempdir"));
                 }
-                let st = SqliteStorage::new(self.dir.as_ref().unwrap().path()).expect("open sqlite");
+                let st = SqliteStorage::new(self.data_dir()).expect("open sqlite");
                 self.store = Some(Arc::new(LogStore::new(st)));
             }
         }
         let shared = Shared(self.store.as_ref().unwrap().clone());
         self.server = Some(Server::new(self.cfg(), shared));
+    }
+
+    /// the SQLite data directory (a kept directory when TSS_KEEP_DIR is set, else a temp dir)
+    pub fn data_dir(&self) -> std::path::PathBuf {
+        match &self.keep_dir {
+            Some(p) => p.clone(),
+            None => self.dir.as_ref().unwrap().path().to_path_buf(),
+        }
+    }
+
+    /// write / read the harness's bookkeeping (uuid numbering, clients, accepted versions), so
+    /// that a later run on the same data directory uses the same canonical numbers
+    pub fn save_state(&self, path: &str) {
+        let mut s = String::new();
+        for u in &self.canon.known {
+            s.push_str(&format!("id {u}\n"));
+        }
+        let mut cs: Vec<_> = self.clients.iter().collect();
+        cs.sort();
+        for (k, u) in cs {
+            s.push_str(&format!("client {k} {u}\n"));
+        }
+        let mut acc: Vec<_> = self.accepted.iter().collect();
+        acc.sort_by_key(|x| *x.0);
+        for (k, l) in acc {
+            for (v, p) in l {
+                s.push_str(&format!("accepted {k} {v} {p}\n"));
+            }
+        }
+        std::fs::write(path, s).expect("save state");
+    }
+    pub fn load_state(&mut self, path: &str) {
+        let txt = std::fs::read_to_string(path).expect("load state");
+        for line in txt.lines() {
+            let t: Vec<&str> = line.split_whitespace().collect();
+            match t.as_slice() {
+                ["id", u] => {
+                    self.canon.id(Uuid::parse_str(u).unwrap());
+                }
+                ["client", k, u] => {
+                    self.clients.insert(k.parse().unwrap(), Uuid::parse_str(u).unwrap());
+                }
+                ["accepted", k, v, p] => {
+                    self.accepted.entry(k.parse().unwrap()).or_default().push((Uuid::parse_str(v).unwrap(), Uuid::parse_str(p).unwrap()));
+                }
+                _ => {}
+            }
+        }
     }
 
     /// the storage object behind the server, for other owners (WebServer)
@@ -529,7 +581,7 @@ impl Ctx {
             self.emit("rows".into(), "rows na".into());
             return;
         }
-        let path = self.dir.as_ref().unwrap().path().join("taskchampion-sync-server.sqlite3");
+        let path = self.data_dir().join("taskchampion-sync-server.sqlite3");
         let line = match self.rows_inner(&path) {
             Ok(l) => l,
             Err(e) => format!("rows error {}", e.to_string().replace('\n', " ")),
@@ -633,6 +685,37 @@ impl Ctx {
                 self.setcounter(c, n.parse().unwrap())
             }
             ["reopen"] => self.reopen(),
+            ["savestate", path] => self.save_state(path),
+            ["loadstate", path] => self.load_state(path),
+            ["hold"] => {
+                // a second, idle connection: while it is open no close checkpoints the WAL
+                let c = rusqlite::Connection::open(self.data_dir().join("taskchampion-sync-server.sqlite3")).expect("hold");
+                let _: i64 = c.query_row("SELECT count(*) FROM clients", [], |r| r.get(0)).unwrap_or(0);
+                self.held = Some(c);
+            }
+            ["crashmid", c] => {
+                // die inside a transaction that has written but not committed
+                use std::io::Write;
+                let c: u32 = c.parse().unwrap();
+                let cu = self.client(c);
+                let latest = self.accepted.get(&c).and_then(|v| v.last()).map(|x| x.0).unwrap_or(Uuid::nil());
+                for l in self.out.drain(..) {
+                    println!("{l}");
+                }
+                std::io::stdout().flush().ok();
+                let server = self.server.as_ref().unwrap();
+                let mut txn = server.txn(cu).expect("txn");
+                txn.add_version(Uuid::new_v4(), latest, vec![0xde, 0xad]).expect("add_version");
+                std::process::abort();
+            }
+            ["abort"] => {
+                use std::io::Write;
+                for l in self.out.drain(..) {
+                    println!("{l}");
+                }
+                std::io::stdout().flush().ok();
+                std::process::abort();
+            }
             ["fault", spec] => {
                 // fault K:before|after,...  applies to the next operation only
                 let plan: Vec<(usize, bool)> = spec
@@ -702,6 +785,10 @@ pub fn main_lib(backend: Backend, seed: u64) {
             }
             other => {
                 let c = ctx.as_mut().expect("op outside case");
+                // operations that kill the process must not lose what was produced so far
+                if matches!(other[0], "abort" | "crashmid") {
+                    w.flush().unwrap();
+                }
                 c.exec(other);
                 // flush what the case produced so far (keeps memory flat for long cases)
                 for l in c.out.drain(..) {
